@@ -187,6 +187,7 @@ type Dump struct {
 	SetCap   int
 	ItemsCh  int
 	IsClosed bool
+	Metric   []uint64 // totals per metric type (nil when metrics are off)
 }
 
 type typedCache[K ristretto.Key] struct {
@@ -221,6 +222,7 @@ func (t *typedCache[K]) Dump() *Dump {
 	d.Buckets, d.LastCl = ristretto.VerifExpiry(t.c)
 	d.SetBuf, d.SetCap, d.ItemsCh = ristretto.VerifBuffers(t.c)
 	d.IsClosed = ristretto.VerifIsClosed(t.c)
+	d.Metric = ristretto.VerifMetricTotals(t.c.Metrics)
 	return d
 }
 
